@@ -98,7 +98,7 @@ def key_records(rows, obs, root, rng=None, nleaf=None):
     for r in rows:
         o = obs[r['id']]
         rec = {'k': 'key', 'root': 'child', 'seed': [], 'words': [], 'pass': [], 'parent': o, 'child': o, 'tok': [],
-               'net': r['net'], 'wt': r['wt'], 'id': r['id'], 'path': r['path']}
+               'net': r['net'], 'wt': r['wt'], 'id': r['id'], 'path': r['path'], 'exported': False}
         if r['parent'] == 0 or r['parent'] not in obs:
             rec.update(root)
         else:
@@ -115,6 +115,8 @@ class Driver:
         self.w, self.name, self.db_uri, self.cfg, self.rng = w, name, db_uri, cfg, rng
         self.events, self.desc = [], []
         self.fake = 0
+        self.exported = False       # public_master() was called on the current wallet object
+        self.ever_exported = False
 
     def chains_known(self):
         """(net, wt, acct) triples and positions the wallet lists (driver's view, used to pick requests only)."""
@@ -157,11 +159,14 @@ class Driver:
                 else:
                     text, r = 'get_keys(change=%d, number_of_keys=%d, %s)' % (ch, n, kw), w.get_keys(change=ch, number_of_keys=n, **kw)
             elif op == 'key_for_path':
-                if n > 1:
+                if n > 1 and a['form'] == 'path':
                     text, r = 'keys_for_path([%d, %d], number_of_keys=%d, %s)' % (ch, idx, n, kw), w.keys_for_path([ch, idx], number_of_keys=n, **kw)
-                elif variant % 4 == 0:
+                elif n > 1:
+                    text = 'keys_for_path([], change=%d, address_index=%d, number_of_keys=%d, %s)' % (ch, idx, n, kw)
+                    r = w.keys_for_path([], change=ch, address_index=idx, number_of_keys=n, **kw)
+                elif a['form'] == 'args':
                     text, r = 'key_for_path([], change=%d, address_index=%d, %s)' % (ch, idx, kw), [w.key_for_path([], change=ch, address_index=idx, **kw)]
-                elif variant % 4 == 1:
+                elif variant % 2:
                     text, r = 'key_for_path("%d/%d", %s)' % (ch, idx, kw), [w.key_for_path('%d/%d' % (ch, idx), **kw)]
                 else:
                     text, r = 'key_for_path([%d, %d], %s)' % (ch, idx, kw), [w.key_for_path([ch, idx], **kw)]
@@ -179,6 +184,14 @@ class Driver:
                                                    'block_height': None, 'fee': None, 'size': 0, 'value': 100000, 'script': '', 'date': None}],
                                rescan_all=False)
                 r = []
+            elif op == 'export':
+                kw2 = {k: v for k, v in kw.items() if k != 'account_id' or not self.cfg['watch']}
+                text = 'public_master(%s)' % kw2
+                pm = w.public_master(**kw2)
+                self.exported = self.ever_exported = True
+                r = []
+                if not pm.wif or pm.is_private:
+                    return False, [], text + ' returned no public key'
             elif op == 'reopen':
                 from bitcoinlib.wallets import Wallet
                 try:
@@ -186,6 +199,7 @@ class Driver:
                 except Exception:
                     pass
                 self.w = Wallet(self.name, db_uri=self.db_uri)
+                self.exported = False
                 text, r = 'close + reopen', []
             else:
                 raise common.MachineryError('unknown op %r' % op)
@@ -214,7 +228,8 @@ class Driver:
         own = (cfg['net'], cfg['wt'], cfg['acct'])
 
         def req(op, net, wt, acct, ch=0, n=1, idx=0):
-            return {'op': op, 'net': net, 'wt': wt, 'acct': acct, 'ch': ch, 'n': n, 'idx': idx}
+            return {'op': op, 'net': net, 'wt': wt, 'acct': acct, 'ch': ch, 'n': n, 'idx': idx,
+                    'form': rng.choice(['path', 'path', 'args']) if op == 'key_for_path' else 'args'}
 
         def some_chain():
             x = rng.random()
@@ -247,8 +262,11 @@ class Driver:
         if r < 0.74 and leafs:
             k = rng.choice(leafs)
             return req('mark_used', k[0], k[1], k[2], k[3], 1, k[4])
-        if r < 0.84:
+        if r < 0.82:
             return req('reopen', cfg['net'], cfg['wt'], cfg['acct'])
+        if r < 0.86:
+            net, wt, acct = own if (watch or not accts or rng.random() < 0.5) else rng.choice(accts)
+            return req('export', net, wt, acct)
         if r < 0.96 and not watch:
             x = rng.random()
             if x < 0.5:
@@ -301,13 +319,14 @@ def chain_tops(leafs, only=None):
 def derive_all(w2, leafs):
     """Bulk-derive in the restored wallet w2 every chain of `leafs` (rows of the original) up to its highest index."""
     for (net, wt, acct, ch), t in chain_tops(leafs):
-        w2.keys_for_path([], change=ch, address_index=0, number_of_keys=t + 1, account_id=acct, network=net, witness_type=wt)
+        for i in range(t + 1):
+            w2.key_for_path([], change=ch, address_index=i, account_id=acct, network=net, witness_type=wt)
 
 
 def derive_events(drv, tops, rng):
     """The same through a driver: recorded requests key_for_path(chain, 0 .. top)."""
     for (net, wt, acct, ch), t in tops:
-        drv.step({'op': 'key_for_path', 'net': net, 'wt': wt, 'acct': acct, 'ch': ch, 'n': t + 1, 'idx': 0}, rng.randrange(0, 420))
+        drv.step({'op': 'key_for_path', 'net': net, 'wt': wt, 'acct': acct, 'ch': ch, 'n': t + 1, 'idx': 0, 'form': 'args'}, rng.randrange(0, 420))
 
 
 def restored_rows(w2):
@@ -404,7 +423,8 @@ def _family(job, d):
     if w3name:
         rows3, obs3 = table_of(w3name, uri(w3name))
         wtrace = {'k': 'trace', 'cfg': cfg3, 'events': drv3.events, 'keys': rows3, 'restored': []}
-        res['keys'] += [dict(x, wallet='watch-only') for x in key_records(rows3, obs3, {'root': 'pub', 'parent': obs[pmid]}, rng, job.get('nleaf'))]
+        res['keys'] += [dict(x, wallet='watch-only', exported=drv3.ever_exported) for x in
+                        key_records(rows3, obs3, {'root': 'pub', 'parent': obs[pmid]}, rng, job.get('nleaf'))]
     # (b) restored from the same material in another spelling, every chain derived in bulk
     leafs = [row_of(k) for k in drv.w.keys() if k.depth == drv.w.key_depth]
     if kind == 'mnemonic':
@@ -421,7 +441,7 @@ def _family(job, d):
     res['traces'].append({'k': 'trace', 'cfg': cfg, 'events': drv.events, 'keys': rows, 'restored': restored})
     if wtrace:
         res['traces'].append(wtrace)
-    res['keys'] += [dict(x, wallet='full') for x in key_records(rows, obs, root, rng, job.get('nleaf'))]
+    res['keys'] += [dict(x, wallet='full', exported=drv.ever_exported) for x in key_records(rows, obs, root, rng, job.get('nleaf'))]
     res['desc']['full'] = drv.desc
     res['problems'] = problems
     res['material'] = {'kind': kind, 'restored_from': k2, 'watch_account': [an, awt, aacct]}
@@ -491,7 +511,7 @@ def run(replay=None):
     tver = common.tlc_eval('WalletKeysEval', trecs, procs=8, timeout=900)
     lap('traces')
     orc = c09_oracle.Oracle9()
-    kver = orc.judge([{x: r[x] for x in ('k', 'root', 'seed', 'words', 'pass', 'parent', 'child', 'tok', 'net', 'wt')} for r in krecs])
+    kver = orc.judge([{x: r[x] for x in ('k', 'root', 'seed', 'words', 'pass', 'parent', 'child', 'tok', 'net', 'wt', 'exported')} for r in krecs])
     lap('keys')
     for t, fam, v in zip(trecs, tinfo, tver):
         ck.traces += 1
@@ -503,18 +523,22 @@ def run(replay=None):
         if v['v'] != 'ok':
             which = 'watch' if t['cfg']['watch'] else 'full'
             at = v['at']
-            ck.violation(v['dev'] or None, 'clause %s; %s wallet %s/%s account %d (seed %d, from %s), at %s: %s | expected %s | history: %s' % (
+            text = 'clause %s; %s wallet %s/%s account %d (seed %d, from %s), at %s: %s | expected %s | history: %s' % (
                 v['v'], kindw, t['cfg']['net'], t['cfg']['wt'], t['cfg']['acct'], fam['job']['seed'], fam['kind'], at,
                 (fam['desc'][which][at - 1] if 0 < at <= len(fam['desc'][which]) and v['v'] not in ('two-keys-share-an-address',) else '')[:300],
-                str(v['exp'])[:200], describe(fam, which, at - 1 if at else None)), case)
+                str(v['exp'])[:200], describe(fam, which, at - 1 if at else None))
+            for key in (v['devs'] or [None]):
+                ck.violation(key, text, case)
     for r, fam, v in zip(krecs, kinfo, kver):
         o = r['child']
         ck.case(('key', r['wallet'], r['net'], r['wt'], o['depth'], o['priv'], r['root']))
         if v['v'] != 'ok':
-            ck.violation(v['dev'] or None, 'clause %s; key %s (id %d) of the %s wallet %s/%s (seed %d, from %s): stored public key %s address %s | expected %s' % (
+            text = 'clause %s; key %s (id %d) of the %s wallet %s/%s (seed %d, from %s): stored public key %s address %s | expected %s' % (
                 v['v'], ''.join(chr(c) for c in r['path']), r['id'], r['wallet'], fam['job']['net'], fam['job']['wt'], fam['job']['seed'],
                 fam['kind'], bytes(o['P']).hex(), ''.join(chr(c) for c in o['addr']),
-                [bytes(x).hex() for x in v['exp']][:3]), {'job': fam['job']})
+                [bytes(x).hex() for x in v['exp']][:3])
+            for key in (v['devs'] or [None]):
+                ck.violation(key, text, {'job': fam['job']})
     for fam in fams:
         for p in fam.get('problems', []):
             ck.violation(None, 'clause restore-raised; wallet %s/%s (seed %d, from %s): %s | history: %s' % (
